@@ -1,5 +1,6 @@
 SPECIFICATION LawSpec
 CONSTANTS
+  Deep = FALSE
   GlobPosBytes = 2
   LoopBits = 3
 INVARIANT BitsTableOK
